@@ -381,7 +381,12 @@ func (e *Engine) TransWrites(fn *ssa.Function) bool {
 		return v
 	}
 	r := false
-	for f := range e.Reach([]*ssa.Function{fn}, nil) {
+	// follow fx-core code only: dependency bodies loaded for other rules (go-ethereum core/vm) are not traversed,
+	// calls into them are classified at the call site (IsExternalWrite)
+	for f := range e.Reach([]*ssa.Function{fn}, func(x *ssa.Function) bool { return !isFx(x) }) {
+		if !isFx(f) {
+			continue
+		}
 		if e.directWrite(f) {
 			r = true
 			break
